@@ -959,6 +959,18 @@ func genC04(tier string, seed uint64) {
 			us := genMemcached(r)
 			mb, mex := dialogue(us[:1])
 			runDgram("memcachedu", append([]byte{0, 1, 0, 0, 0, 1, 0, 0}, mb...), mex, true)
+			// several commands in one datagram; the frame header alone; less than a header
+			// (at most three: the service answers each command and stops at the first answer its rate limiter refuses —
+			// the fifth from one source — which is C10's subject)
+			if len(us) > 3 {
+				us = us[:3]
+			}
+			mb, mex = dialogue(us)
+			runDgram("memcachedu", append([]byte{byte(i), 2, 0, 0, 0, 1, 0, 0}, mb...), mex, true)
+			if i < 12 {
+				runDgram("memcachedu", []byte{0, 1, 0, 0, 0, 1, 0, 0}, nil, false)
+				runDgram("memcachedu", []byte{0, 1, 0, 0, 0, 1, 0, 0}[:i%8], nil, false)
+			}
 		}
 		cuts["datagram"]++
 	}
